@@ -9,6 +9,14 @@ import traceback
 
 sys.path.insert(0, os.path.dirname(os.path.abspath(__file__)))
 from lib import common as C  # noqa: E402
+from lib import witnesses as W  # noqa: E402
+
+
+def run_replay(plug, ctx, payload):
+  inp = payload.get("input") or {}
+  if isinstance(inp, dict) and inp.get("kind") == "witness":
+    return W.run(inp["name"])
+  return plug.replay(ctx, payload)
 
 
 def main():
@@ -27,7 +35,7 @@ def main():
 
 def do_replay(ctx, plug, path):
   payload = json.load(open(path))
-  fail = plug.replay(ctx, payload)
+  fail = run_replay(plug, ctx, payload)
   if fail:
     print(f"replay still fails: {fail.get('what', fail.get('signature'))}")
     print(f"VIOLATION property={ctx.prop} replay={path}")
@@ -48,7 +56,7 @@ def do_check(ctx, plug):
   for f in sorted(glob.glob(os.path.join(C.VERIF, "corpus", prop, "*.json"))):
     corpus_n += 1
     try:
-      r = plug.replay(ctx, json.load(open(f)))
+      r = run_replay(plug, ctx, json.load(open(f)))
     except Exception as e:  # a crash of the implementation on a corpus input is a failure of that input
       r = dict(signature=f"corpus-crash:{os.path.basename(f)}", what=f"corpus case {os.path.basename(f)} raised {type(e).__name__}: {e}",
                input=json.load(open(f)).get("input"))
